@@ -8,6 +8,9 @@ Stale memory: the two runs of the determinism pair get destinations pre-filled w
 zvh_train_fill.h), so a result byte the trainer never wrote shows as a difference.  Directed families: size_varying_ops (optimiser runs whose candidates have
 DIFFERENT dictionary sizes, the better one later and larger: the result holder must grow its buffer) and remainder_ops (capacity = q*k + r for every r in 0..d, every
 direct trainer and single-candidate optimiser run, on corpora whose segments have the full length k), tiny_training_ops (training part around max(d,8) bytes).
+Legacy trainer: table_full_ops (sample sets with more distinct, recurring, unmergeable segments than the candidate table has slots - 10000 / capacity/16 / nbSamples -:
+the table fills up and candidates displace its lowest-ranked entries; measured by the harness, tbl=pos/slots) and the function-level tie ZDICT_insertDictItem ==
+Train.insertAll on tables of 2..100 slots (dins; theorems table_insert_bounded / table_insert_ranked).
 Function-level ties: COVER_computeEpochs == Train.computeEpochs, COVER_ctx_init / FASTCOVER_ctx_init == Train.ctxInit.  One shape is excluded (EXCLUDED in
 harness/zvh_train.c: optimiser, split < 1, training part below max(d,8) bytes - a crash of the unchanged tree); repaired in the tree by fix 3d7351b: the shape runs by default and must give an error code; ZV_C18_EXCLUDE=1 restores the exclusion."""
 import os, re
@@ -147,6 +150,64 @@ def tiny_training_ops(rng, quick):
     return ops
 
 
+def legacy_table_min():
+    """DICTLISTSIZE_DEFAULT of the current tree's zdict.c (10000 when it cannot be read); only used to SIZE the directed sample sets - whether a run filled its table is
+    measured by the harness (tbl=pos/slots)"""
+    try:
+        m = re.search(r"^#\s*define\s+DICTLISTSIZE_DEFAULT\s+(\d+)", open(os.path.join(build.REPO, "lib/dictBuilder/zdict.c")).read(), re.M)
+        return max(2, min(int(m.group(1)), 200000)) if m else 10000
+    except OSError:
+        return 10000
+
+
+def table_full_ops(rng, quick):
+    """Legacy-trainer runs whose table of candidate segments FILLS UP (ZDICT_trainFromBuffer_unsafe_legacy: max(10000, nbSamples, capacity/16) slots; ordinary corpora stay
+    far below).  Sample kind seg<L>s<S>r<R> (harness): T distinct random tokens of L..L+4 bytes recurring R times between fresh random bytes = T candidate segments with
+    different savings that merge with nothing; T is 3..12 % above the table's slot count, so the table becomes full and further candidates must displace its lowest-ranked
+    entries (and the later passes - size limit, content building, entropy statistics - run on a full table).  The three ways the slot count is decided: the minimum
+    (small and tiny capacities), capacity/16, the number of samples (> 10000 tiny samples; selectivity 11 keeps the repetition threshold at nbSamples >> 11).
+    Sanitizer build, determinism pair; the harness reports tbl=<used slots>/<slots>: counted (legacy_table_full_runs), a note when the family stops filling the table."""
+    ops = []
+    LEGACY_TABLE_MIN = legacy_table_min()
+    def one(cap, nb, slots, L, S, R, sel):
+        over = rng.choice([103, 105, 108, 112])
+        T = slots * over // 100 + 1
+        total = T * R * (L + 2 + S) + 64
+        ssz = total // nb + 1
+        ops.append(_op("legacy", cap, sel, 0, 0, 0, 0, 100, 0, 1, "seg%ds%dr%d:%d:%d" % (L, S, R, nb, ssz), rng.randrange(1 << 30), dict_id=rng.choice([0, 0, 777])))
+    for _ in range(1 if quick else 6):
+        one(rng.choice([60000, 100000, 112640]), rng.choice([40, 64, 200]), LEGACY_TABLE_MIN, rng.choice([8, 9]), rng.choice([3, 4, 6]), 5, 0)          # minimum table, ordinary capacity
+        one(rng.choice([256, 1000, 2000, 4000]), rng.choice([16, 64]), LEGACY_TABLE_MIN, rng.choice([8, 10, 12]), rng.choice([2, 3]), 5, rng.choice([0, 9]))  # minimum table, tiny capacity: almost all of it cut by the size limit
+        cap = rng.choice([168000, 176000, 184000])
+        one(cap, rng.choice([50, 128]), cap // 16, 8, rng.choice([3, 4]), 5, 0)                                                                       # slots = capacity / 16
+        nb = rng.choice([10300, 10500, 10900])
+        one(rng.choice([20000, 110000]), nb, nb, 8, rng.choice([3, 4]), 6, 11)                                                                        # slots = number of samples
+    return ops
+
+
+def dins_ops(rng, quick):
+    """ZDICT_insertDictItem at function level (candidates that merge with nothing): tables of 2..100 slots, 0 .. 3x as many candidates as slots - always including
+    exactly-full (slots-1 candidates), the first displacement (slots), and long runs on a full table - with rising, falling, constant, few-valued and random savings."""
+    ops = []
+    for m in (2, 3, 4, 5, 8, 16, 33, 100):
+        for cnt in (0, 1, m - 2, m - 1, m, m + 1, 2 * m + 3, 3 * m):
+            for pat in (("rise", "fall", "const", "few", "rand") if quick else ("rise", "fall", "const", "few", "rand", "rand", "few", "rand")):
+                if cnt <= 0:
+                    sv = []
+                elif pat == "rise":
+                    sv = [10 + 3 * i for i in range(cnt)]
+                elif pat == "fall":
+                    sv = [10 + 3 * (cnt - i) for i in range(cnt)]
+                elif pat == "const":
+                    sv = [rng.randrange(1, 1000)] * cnt
+                elif pat == "few":
+                    sv = [rng.choice([4, 4, 9, 20]) for _ in range(cnt)]
+                else:
+                    sv = [rng.choice([rng.randrange(1, 50), rng.randrange(1, 1 << 20), (1 << 32) - 2, 0]) for _ in range(cnt)]
+                ops.append("dins %d %s" % (m, ",".join(map(str, sv)) or "-"))
+    return sorted(set(ops))
+
+
 def epochs_ops(rng, quick):
     """COVER_computeEpochs at function level (defined inputs only: nbDmers >= 1, k >= 1): the small d-mer counts, the k*10 thresholds, capacities below / above k"""
     ops = []
@@ -190,7 +251,8 @@ def run_each(exe, ops, timeout=900, env=None):
             if lines and lines[-1].startswith("res=HANG"):
                 continue        # the alarm handler printed the verdict for that operation and ended the process: restart with the next one
             if i < len(chunk):
-                res.append((None, "exit %d: %s" % (rc, err[-1500:])))
+                head = next((l.strip() for l in err.split("\n") if "ERROR: " in l or "runtime error" in l), "")      # the sanitizer's own one-line verdict, then the tail
+                res.append((None, "exit %d: %s%s" % (rc, head[:300] + " ... " if head else "", err[-1500:])))
                 i += 1
         return res
     return frames.parallel(work, frames.split_chunks(ops, 16))
@@ -208,8 +270,12 @@ def correspondence(ctx):
     tt_ops = tiny_training_ops(rng, quick)
     ops += sv_ops + rm_ops + tt_ops
     sv_set = set(sv_ops)
+    tf_ops = table_full_ops(rng, quick)
+    tf_set = set(tf_ops)
+    for i, o_ in enumerate(tf_ops):          # spread over the parallel chunks (each is a 1..3 s run in the sanitizer build)
+        ops.insert((len(ops) // (len(tf_ops) + 1)) * (i + 1) % (len(ops) + 1), o_)
     res = run_each(hx("san"), ops)
-    stats = dict(ok=0, err=0, zero=0, holders=0, finalize_ties=0, id_ties=0, param_ties=0, excluded=0, grown=0, grown_directed=0)
+    stats = dict(ok=0, err=0, zero=0, holders=0, finalize_ties=0, id_ties=0, param_ties=0, excluded=0, grown=0, grown_directed=0, table_full=0, table_full_directed=0, table_max_fill=0.0)
     excluded = []
     loads, loadmeta, fins, finmeta, cids, cidmeta, bests, bestmeta, pm, pmeta = [], [], [], [], [], [], [], [], [], []
     for op, (o, crash) in zip(ops, res):
@@ -217,16 +283,23 @@ def correspondence(ctx):
         algo, cap, k, d, f, accel, steps, split, threads, dict_id = w[1], int(w[2]), int(w[3]), int(w[4]), int(w[5]), int(w[6]), int(w[7]), int(w[8]), int(w[10]), int(w[11])
         kind, nb, ssz = w[13].split(":")[0], int(w[13].split(":")[1]), int(w[13].split(":")[2])
         if crash is not None or o is None or o.startswith("res=HANG"):
-            ctx.violation("training crashed / sanitizer report / hang: %s -> %s" % (op, (crash or o)[-500:]), dict(kind="monitor", op=op, stderr=crash or o))
+            ctx.violation("training crashed / sanitizer report / hang: %s -> %s" % (op, (crash or o)[:300] + " ... " + (crash or o)[-300:] if len(crash or o) > 600 else (crash or o)), dict(kind="monitor", op=op, stderr=crash or o))
             continue
         if o.startswith("res=excluded:"):
             # the ONE shape the harness answers without calling the library (see EXCLUDED in harness/zvh_train.c): a reported defect of the unchanged tree
             # (optimiser, split < 1, training part below max(d,8) bytes: SIGFPE / out-of-bounds read); counted and listed in the evidence, never silently dropped
             stats["excluded"] += 1; excluded.append(op); continue
-        m = re.match(r"res=(\S+) loadC=(\S+) loadD=(\S+) ids=(\d+),(\d+),(\d+),(\d+) hsize=(\d+) rt=(\d+)/(\d+) det=(\S+) content=(\d+) ev=(.*?) dict=(\S+)(?: grow=(\d+) cands=(\d+))?$", o)
+        m = re.match(r"res=(\S+) loadC=(\S+) loadD=(\S+) ids=(\d+),(\d+),(\d+),(\d+) hsize=(\d+) rt=(\d+)/(\d+) det=(\S+) content=(\d+) ev=(.*?) dict=(\S+)(?: grow=(\d+) cands=(\d+))?(?: tbl=(\d+)/(\d+))?$", o)
         if not m:
             ctx.violation("unparsable harness line: %s" % o[:200], dict(kind="internal", op=op), no_input=True); continue
-        r, lc, ld, i1, i2, i3, i4, hs, rok, rtried, det, chash, evs, dhex, grow, cands = m.groups()
+        r, lc, ld, i1, i2, i3, i4, hs, rok, rtried, det, chash, evs, dhex, grow, cands, tpos, tent = m.groups()
+        if tent and int(tent):
+            stats["table_max_fill"] = max(stats["table_max_fill"], round(int(tpos) / int(tent), 4))
+            if int(tpos) > int(tent):
+                ctx.violation("the legacy trainer's candidate table claims %s used slots, it has %s: %s" % (tpos, tent, op), dict(kind="monitor", op=op, result=o[:300]))
+            if int(tpos) >= int(tent):
+                stats["table_full"] += 1
+                stats["table_full_directed"] += 1 if op in tf_set else 0
         if grow and int(grow) > 0:
             stats["grown"] += 1
             if op in sv_set:
@@ -297,6 +370,19 @@ def correspondence(ctx):
             stats["holders"] += 1
         else:
             ctx.violation("the optimiser's result-holder events are not a path of the protocol model: %s -> %s" % (op, v), dict(kind="tie-best-protocol", op=op, verdict=v), no_input=True)
+    # ---- function-level tie: ZDICT_insertDictItem (no merge) == Train.insertAll; sanitizer build, table block of exactly maxSize slots ----
+    d_ops = dins_ops(rng, quick)
+    d_bad = 0
+    for op, (o, crash), v in zip(d_ops, run_each(hx("san"), d_ops), drv("train", d_ops)):
+        stats["dins_ties"] = stats.get("dins_ties", 0) + 1
+        if d_bad >= 4:
+            continue           # enough replays of the same function
+        if crash is not None or o is None:
+            d_bad += 1
+            ctx.violation("ZDICT_insertDictItem on a table of %s slots, %d candidates: crash / sanitizer report: %s -> %s" % (op.split()[1], 0 if op.split()[2] == "-" else op.count(",") + 1, op[:120], (crash or "")[:400]), dict(kind="monitor", op=op, stderr=crash))
+        elif o.strip() != v.strip():
+            d_bad += 1
+            ctx.violation("ZDICT_insertDictItem: table after the insertions is %s, the model says %s: %s" % (o[:200], v[:200], op[:200]), dict(kind="tie-dict-item-table", op=op, model=v, code=o))
     # ---- function-level ties: COVER_computeEpochs == Train.computeEpochs; the two ctx_init == Train.ctxInit (d-mer count of the TRAINING part, or srcSize_wrong) ----
     e_ops = epochs_ops(rng, quick)
     for op, (o, crash), v in zip(e_ops, run_each(hx("san"), e_ops), drv("train", e_ops)):
@@ -333,10 +419,13 @@ def correspondence(ctx):
             ctx.violation("ThreadSanitizer / crash in the TSan build: %s -> %s" % (op, crash[-400:]), dict(kind="monitor-tsan", op=op, stderr=crash))
     if excluded:
         ctx.notes.append("%d operation(s) of the excluded shape (optimiser with split < 1 and a training part below max(d,8) bytes: known crash of the unchanged tree, see harness/zvh_train.c) were not run: %s" % (len(excluded), excluded[:5]))
+    if stats["table_full_directed"] < len(tf_ops):
+        ctx.notes.append("only %d of the %d directed legacy runs filled their candidate table (best fill %.4f): the family no longer reaches the full-table case" % (stats["table_full_directed"], len(tf_ops), stats["table_max_fill"]))
     if stats["grown_directed"] == 0:
         ctx.notes.append("none of the %d size-varying optimiser runs made the result holder grow its buffer: the directed family no longer reaches that case" % len(sv_ops))
-    return dict(excluded_known_crash_shape=stats["excluded"], size_varying_runs=len(sv_ops), holder_buffer_regrowths=stats["grown"], holder_buffer_regrowths_directed=stats["grown_directed"], remainder_sweep_runs=len(rm_ops), tiny_training_part_runs=len(tt_ops), epochs_ties=stats.get('epoch_ties', 0), ctx_init_ties=stats.get('ctx_ties', 0),
-                evaluations=len(ops) + len(tops) + len(e_ops) + len(c_ops), distinct_nontrivial=len(set(ops)) + len(set(e_ops)) + len(set(c_ops)),
+    return dict(legacy_table_full_directed_runs=len(tf_ops), legacy_table_full_runs=stats["table_full"], legacy_table_full_runs_directed=stats["table_full_directed"], legacy_table_best_fill=stats["table_max_fill"], dict_item_table_ties=stats.get("dins_ties", 0),
+                excluded_known_crash_shape=stats["excluded"], size_varying_runs=len(sv_ops), holder_buffer_regrowths=stats["grown"], holder_buffer_regrowths_directed=stats["grown_directed"], remainder_sweep_runs=len(rm_ops), tiny_training_part_runs=len(tt_ops), epochs_ties=stats.get('epoch_ties', 0), ctx_init_ties=stats.get('ctx_ties', 0),
+                evaluations=len(ops) + len(tops) + len(e_ops) + len(c_ops) + len(d_ops), distinct_nontrivial=len(set(ops)) + len(set(e_ops)) + len(set(c_ops)) + len(set(d_ops)),
                 rule="one evaluation = one training call (x2 when single-threaded, for determinism) on a generated sample set; distinct = distinct op lines",
                 samples=[dict(op=ops[0], result=(res[0][0] or "")[:200])], outcomes=dict(ok=stats["ok"], error=stats["err"], zero=stats["zero"]),
                 result_holder_traces_accepted=stats["holders"], finalize_layout_ties=stats["finalize_ties"], id_rule_ties=stats["id_ties"], parameter_verdict_ties=stats["param_ties"], lean_loader_checks=len(loads), tsan_runs=len(tops))
@@ -346,4 +435,7 @@ def replay(ctx, data):
     op = data["op"]
     res = run_each(hx(data.get("variant", "san")), [op])
     o, crash = res[0]
+    if op.startswith("dins ") and crash is None:
+        rc, out, err = zv.run([zv.driver_exe(), "train"], op + "\n", timeout=300)
+        return dict(violates=(o or "").strip() != out.strip(), result=(o or "")[:400], model=out.strip()[:400])
     return dict(violates=crash is not None or "DIFF" in (o or "") or "OVERFLOW" in (o or ""), result=(o or crash)[:400])
